@@ -2,6 +2,7 @@ SPECIFICATION Spec
 CONSTANTS
   MinN = 0
   MaxN = 6
+  TwinMaxN = 5
 CONSTRAINT Export
 INVARIANT ImplRefinesReq
 INVARIANT ImplCallsDistinct
